@@ -69,3 +69,10 @@ package lossless
 //@   ensures uint8(packMultipliers(m) >> 8) == uint8(m.GreenToBlue)
 //@   ensures uint8(packMultipliers(m) >> 16) == uint8(m.RedToBlue)
 //@   ensures packMultipliers(m) >> 24 == 0
+//
+// The VP8L stream decoder as a whole is outside the verifier's reach; callers
+// rely only on the shape of a successful result (assumed, listed in evidence).
+//@ func DecodeVP8L
+//@   trusted
+//@   modifies nothing
+//@   ensures result1 == nil ==> result0 != nil
